@@ -9,7 +9,7 @@
 From Coq Require Import String Ascii List Bool Arith ZArith.
 Import ListNotations.
 Require Import PyBase PyStr Lex LexCoverFacts Symbols Split SplitFacts SplitChunks SplitChunksFacts SplitBalanceFacts Merge ParseEq ParseEqFacts ParseModel ParseModelFacts ParseModelExamples
-               ParseContribFacts ParseContribExamples FormatDecideFacts SplitInsertFacts ParseOracleFacts SplitIdemFacts ParseEqYieldFacts MergeUniqueFacts.
+               ParseContribFacts ParseContribExamples FormatDecideFacts SplitInsertFacts ParseOracleFacts SplitIdemFacts ParseEqYieldFacts MergeUniqueFacts ParseCountFacts.
 Open Scope string_scope.
 
 Section C13.
@@ -117,6 +117,16 @@ Section C13.
      (verbatim blocks are unnamed), so the equations counted by n_emitted belong to distinct variables *)
   Theorem C13_names_unique cs s out : parse_model_M chk cs s = POk out -> NoDup (names_of out).
   Proof. exact (parse_model_names_unique chk cs s out). Qed.
+
+  (* the statement-count clause WITHOUT any guard, for EVERY accepted script: the built model has exactly as many
+     equations / verbatim blocks as there are DISTINCT names to which some statement gives an equation, plus one per
+     verbatim statement.  (count_new [] l = the number of distinct elements of l, C13_count_new_is_distinct_count.)
+     The three kept findings are instances: a name given an equation by two statements counts once, a statement with
+     two left-hand names counts twice, a left-hand name overwritten by a FUNCTION symbol counts zero. *)
+  Theorem C13_model_equation_count cs s out :
+    parse_model_M chk cs s = POk out ->
+    n_emitted out = count_new [] (emit_names (concat (stmt_symbols s))) + length (filter backticked (fst (split_M s))).
+  Proof. exact (model_equation_count chk cs s out). Qed.
 End C13.
 Print Assumptions C13_every_exception_classified.
 Print Assumptions C13_own_errors_only.
@@ -131,6 +141,19 @@ Print Assumptions C13_model_decides_unless_stray_brace.
 Print Assumptions C13_blank_line_between_statements_irrelevant.
 Print Assumptions C13_oracle_sees_only_generated_codes.
 Print Assumptions C13_names_unique.
+Print Assumptions C13_model_equation_count.
+
+Theorem C13_count_new_is_distinct_count l seen :
+  exists l', NoDup l' /\ (forall x, In x l' <-> In x l /\ ~ In x seen) /\ count_new seen l = length l'.
+Proof. exact (count_new_spec l seen). Qed.
+Print Assumptions C13_count_new_is_distinct_count.
+(* every named symbol of every parsed statement either carries an equation and is ENDOGENOUS, or carries neither equation
+   nor code and is not ENDOGENOUS — no guard *)
+Theorem C13_statement_symbols_tidy st syms :
+  parse_equation_M st = POk syms -> forall v, In v syms -> sname v <> None ->
+  if emits v then stype v = TEndogenous else sequation v = None /\ scode v = None /\ stype v <> TEndogenous.
+Proof. exact (parse_equation_M_tidy st syms). Qed.
+Print Assumptions C13_statement_symbols_tidy.
 
 (* one statement, taken alone: a verbatim statement or a guarded equation yields exactly one emitting symbol *)
 Theorem C13_statement_emits_one st syms :
